@@ -119,7 +119,7 @@ def run(ck, sj, progs, workdir, fmts=("sdl",)):
 
 REQUIRED_RULES = ["unknownField", "subselectionOnLeaf", "subselectionOnTypename", "aliasedTypename", "noSubselectionOnComposite", "undefinedFragment",
                   "unknownTypeCondition", "unknownTypeConditionOnFragment", "impossibleTypeCondition",
-                  "impossibleFragmentSpread", "typenameRemoved", "abstractSelectionWithoutTypename", "subscriptionSecondRoot",
+                  "impossibleFragmentSpread", "typenameRemoved", "abstractSelectionWithoutTypename", "subscriptionSecondRoot", "subscriptionRootsAfterAnotherSubscription",
                   "anonymousOperation", "bareSelectionSet", "noRootType"]
 
 
@@ -147,7 +147,7 @@ def main(tier, replay=None, selftest=False):
         # drop the edit from one case: an unedited (valid) document must be reported as accepted
         progs[0]["edits"].append({"rule": "selftest-noop", "at": 0, "variant": "full",
                                   "nset": {"i": 0, "f": "", "v": ""}, "dset": {"d": 0, "name": "", "kind": "", "on": ""},
-                                  "app": [], "keepAll": True, "keep": []})
+                                  "app": [], "keepAll": True, "keep": [], "dapp": []})
     rules = run(ck, sj, progs, workdir, fmts=("sdl", "json", "sdl_defaultnames"))
     missing = [r for r in REQUIRED_RULES if not rules.get(r)]
     if missing:
